@@ -323,6 +323,55 @@ def mutated(rng, w, depth=0):
     return {'s': 'other'}
 
 
+def deep_val(rng, levels):
+    """a value nested `levels` container levels deep (lists / dicts / tuples alternating from a random start); at the
+    bottom a multi-key dict, built in some insertion order, that also holds a plain object.  Keys must stay a function of
+    the VALUE at any depth (an encoder that gives up below some depth and writes repr() there does not)."""
+    ks = rng.sample(['b', 'a', 'zz', 'k k', 'é', 'Z', '_', 'c'], rng.randint(3, 5))
+    bottom = [[k, rand_atom(rng)] for k in ks]
+    bottom.insert(rng.randrange(len(bottom) + 1),
+                  ['obj', {'o': [rng.choice(['Obj', 'Pt']), [[k, rand_atom(rng)] for k in rng.sample(['x', 'y', 'name'], rng.randint(2, 3))]]}])
+    v = {'d': bottom}
+    start = rng.randrange(3)
+    for i in range(levels):
+        kind = 'ldt'[(start + i) % 3]
+        if kind == 'd':
+            items = [[k, rand_atom(rng)] for k in rng.sample(['p', 'q', 'r'], rng.randint(0, 2))]
+            items.insert(rng.randrange(len(items) + 1), ['n%d' % i, v])
+            v = {'d': items}
+        else:
+            items = [rand_atom(rng) for _ in range(rng.randint(0, 2))]
+            items.insert(rng.randrange(len(items) + 1), v)
+            v = {kind: items}
+    return v
+
+
+def mutated_deep(rng, w):
+    """structurally different from `w` at the deepest level: follows the container chain down, then changes one leaf"""
+    if isinstance(w, dict):
+        for tag in ('l', 't'):
+            if tag in w:
+                idx = [i for i, x in enumerate(w[tag]) if isinstance(x, dict) and any(t in x for t in ('l', 't', 'd', 'o'))]
+                if idx:
+                    i = rng.choice(idx)
+                    return {tag: w[tag][:i] + [mutated_deep(rng, w[tag][i])] + w[tag][i + 1:]}
+                if w[tag]:
+                    i = rng.randrange(len(w[tag]))
+                    return {tag: w[tag][:i] + [mutated(rng, w[tag][i])] + w[tag][i + 1:]}
+                return {tag: [None]}
+        for tag in ('d', 'o'):
+            if tag in w:
+                items = w['d'] if tag == 'd' else w['o'][1]
+                idx = [i for i, (_, x) in enumerate(items) if isinstance(x, dict) and any(t in x for t in ('l', 't', 'd', 'o'))]
+                i = rng.choice(idx) if idx else rng.randrange(len(items)) if items else None
+                if i is None:
+                    return {'d': [['added', None]]}
+                new = mutated_deep(rng, items[i][1]) if idx else mutated(rng, items[i][1])
+                items = items[:i] + [[items[i][0], new]] + items[i + 1:]
+                return {'d': items} if tag == 'd' else {'o': [w['o'][0], items]}
+    return mutated(rng, w)
+
+
 # ------------------------------------------------------------------------------------------------------------
 # sites and calls
 # ------------------------------------------------------------------------------------------------------------
@@ -555,6 +604,10 @@ class C06(Prop):
             cases.append(self.gen_batch(rng))
         for _ in range(n_adv):
             cases.append(self.gen_batch(rng, adversarial=True))
+        for _ in range(n_batch // 12):
+            cases.append(self.gen_deep_batch(rng))
+        for _ in range(n_codec // 40):
+            cases.append({'kind': 'codec', 'v': deep_val(rng, rng.randint(9, 14))})
         for _ in range(n_replay):
             cases.append(self.gen_replay(rng))
         for _ in range(n_codec):
@@ -579,6 +632,29 @@ class C06(Prop):
                 calls.append(self.variant(rng, sites, base))
         rng.shuffle(calls)
         return {'kind': 'batch', 'sites': sites, 'calls': calls[:14]}
+
+    def gen_deep_batch(self, rng):
+        """calls whose captured arguments are nested 9-13 container levels deep: the same value in other insertion orders
+        (must share the key) and with one leaf changed at the bottom (must not)"""
+        static = rng.random() < 0.5
+        first = 0 if static else 1
+        how = rng.choice(['all', 'position', 'name'])
+        sel = None if how == 'all' else [[first, 'a']] if how == 'position' else [[None, 'kw'], [first + 1, None]]
+        site = {'alias': rng.choice(PLAIN_ALIASES), 'resolver': None, 'sel': sel, 'static': static}
+        deep = deep_val(rng, rng.randint(9, 13))
+        other = deep_val(rng, rng.randint(9, 11)) if rng.random() < 0.5 else rand_atom(rng)
+
+        def call(d, o):
+            if how == 'name':
+                return {'site': 0, 'args': [rand_atom(rng), o], 'kwargs': [['kw', d], ['z', rand_atom(rng)]]}
+            return {'site': 0, 'args': [d, o], 'kwargs': [['z', o]] if how == 'all' else [['z', rand_atom(rng)]]}
+        changed = mutated_deep(rng, deep)
+        calls = [call(deep, other), call(shuffled(rng, deep), shuffled(rng, other)), call(shuffled(rng, deep), other),
+                 call(changed, other), call(shuffled(rng, changed), other), call(mutated_deep(rng, deep), other)]
+        if how == 'position':       # excluded second argument changed: same key
+            calls.append({'site': 0, 'args': [shuffled(rng, deep), rand_atom(rng)], 'kwargs': []})
+        rng.shuffle(calls)
+        return {'kind': 'batch', 'sites': [site], 'calls': calls, 'deep': True}
 
     def variant(self, rng, sites, base):
         c = rng.random()
@@ -895,6 +971,8 @@ class C06(Prop):
                                      'by-name' if all(p is None for p, _ in s['sel']) else
                                      'by-position' if all(n is None for _, n in s['sel']) else 'mixed'))
         if case['kind'] == 'batch':
+            if case.get('deep'):
+                out.append('batch:deep-nesting(9-13 levels)')
             out.append('calls:%d' % len(case['calls']))
             for c in impl['calls']:
                 out.append('key:error' if c['direct'].startswith('ERR:') else 'key:ok')
@@ -947,6 +1025,8 @@ class C06(Prop):
             out.append(self.gen_batch(rng, adversarial=rng.random() < 0.3, sets=False))
         for _ in range(40):
             out.append(self.gen_replay(rng))
+        for _ in range(30):
+            out.append(self.gen_deep_batch(rng))
         return out
 
 
